@@ -116,7 +116,11 @@ CHECKS = {
               'the request before it sweeps, so an answered request is not reported. Tied to correlator.py on a virtual clock '
               'with responses/probes at ttl-1, ttl, ttl+1 quanta, many outstanding requests, segments of one message stored at '
               'different instants and answered or not (each segment has its own time-to-live), and a second correlator operation '
-              'while an expiry notification is suspended. Session level (no theorem): the C01 session ledger checks on real sessions '
+              'while an expiry notification is suspended. HISTORY LEVEL (unsegmented requests, invariants by induction over '
+              'arbitrary operation lists): nothing_reported_before_ttl - while no operation comes later than the time-to-live and '
+              'the own response has not arrived, nothing at all is reported for the request, whatever else is stored or handled; '
+              'unanswered_reported_exactly_once - it is reported exactly once as soon as any request is stored (probes included) '
+              'or any response handled after the time-to-live, and never again. Session level (no theorem): the C01 session ledger checks on real sessions '
               'that an unanswered message is reported neither before its time-to-live nor later than the following keep-alive '
               'probes allow. That a probe is in fact sent every enquire_link_interval is C16 (session model).'),
         note=COMMON_NOTE + 'time.monotonic replaced by a virtual clock in quanta of 1/1024 s (floats exact). Operations are atomic here; a hook that suspends inside _remove_expired is a session-level interleaving.',
